@@ -367,21 +367,34 @@ func (s *Applier) verifyAnchoringTimeRange(from, until int64, anchor uint64) err
 		return nil
 	}
 
-	if from > int64(anchor) {
+	// the anchoring time is unsigned, the window is signed: compare without pressing one into the other's range
+	if from > 0 && uint64(from) > anchor {
 		return fmt.Errorf("anchor from time is greater then anchoring time")
 	}
 
-	if s.getAnchorUntil(from, until) < int64(anchor) {
+	if !s.isBeforeAnchorUntil(from, until, anchor) {
 		return fmt.Errorf("anchor until time is less then anchoring time")
 	}
 
 	return nil
 }
 
-func (s *Applier) getAnchorUntil(from, until int64) int64 {
-	if from != 0 && until == 0 {
-		return from + int64(s.MaxOperationTimeDelta)
+// isBeforeAnchorUntil checks anchor <= anchor until, where a missing anchor until is anchor from plus the
+// maximum operation time delta (evaluated without overflow).
+func (s *Applier) isBeforeAnchorUntil(from, until int64, anchor uint64) bool {
+	if from == 0 || until != 0 {
+		return until >= 0 && anchor <= uint64(until)
 	}
 
-	return until
+	delta := s.MaxOperationTimeDelta
+
+	if from > 0 {
+		// anchor >= from has been established: anchor <= from + delta  <=>  anchor - from <= delta
+		return anchor-uint64(from) <= delta
+	}
+
+	// from < 0: anchor <= delta - |from|
+	distance := uint64(-(from + 1)) + 1
+
+	return delta >= distance && anchor <= delta-distance
 }
